@@ -217,6 +217,8 @@ def check_C07(ctx):
             if not a["stderr"] or not a["stderr"][0].startswith("Error: ") or not ul:
                 ctx.violation("policy", "rejection of %r did not write the error and a usage line: %r" % (c["argv"], a["stderr"][:3]), case=c)
                 continue
+            if a["outcome"][0] == "ret" and a.get("errline") is False:
+                ctx.violation("policy", "rejection of %r: the error line written is not the text of the error returned: %r" % (c["argv"], a["stderr"][:1]), case=c)
             owner = None
             for j in range(len(cmds), 0, -1):
                 up = "Usage: " + usage_path(cmds[:j])
@@ -252,7 +254,8 @@ def check_C07(ctx):
     # a value that does not convert, in every position of a repeated multi-valued variable, at the root
     # and in a sub-command: the invocation is rejected whatever follows the bad value
     bad_cases = []
-    for kind, bad, good in (("ints", "x", "3"), ("floats", "1.2.3", "2.5"), ("ints", "", "7"), ("floats", "abc", "1e3")):
+    for kind, bad, good in (("ints", "x", "3"), ("floats", "1.2.3", "2.5"), ("ints", "", "7"), ("floats", "abc", "1e3"),
+                            ("ints", "50%", "50"), ("floats", "%d%s", "0.5"), ("ints", "1%v", "1")):
         for pattern in ([bad, good], [good, bad], [good, bad, good], [bad], [bad, good, good]):
             for where in ("root", "sub"):
                 for pol in (0, 1, 2):
@@ -287,7 +290,8 @@ def check_C07(ctx):
     for c in bad_cases:
         a, _ = res3[c["id"]]
         want = {0: ("ret", "conv"), 1: ("exit", 2), 2: ("panic", "err:conv")}[c["_pol"]]
-        if a["trace"] or tuple(a["outcome"][:2]) != want or not a["stderr"] or a["stderr"][0] != "Error: <conv>":
+        if a["trace"] or tuple(a["outcome"][:2]) != want or not a["stderr"] or a["stderr"][0] != "Error: <conv>" \
+                or (c["_pol"] == 0 and a.get("errline") is not True):
             ctx.violation("policy", "argv %r holds a value that does not convert (policy %d) but the invocation ended %r with trace %r and error line %r"
                           % (c["argv"], c["_pol"], a["outcome"], a["trace"], a["stderr"][:1]), case=c)
     ctx.stream("unconvertible value in every position", len(bad_cases))
@@ -459,7 +463,9 @@ def value_cases(ctx):
                         for ncli in (0, 1, 2, 3):
                             cli = [rng.choice(valid) for _ in range(ncli)]
                             names = ["VE%d" % i for i in range(nenv)]
-                            d = (gen.mkopt if isopt else gen.mkarg)(kind, "x val" if isopt else "ARG", env=" ".join(names),
+                            # the names of an EnvVar list are separated by any white space
+                            sep = rng.choice([" ", " ", " ", "\t", "\n", "  ", " \t "])
+                            d = (gen.mkopt if isopt else gen.mkarg)(kind, "x val" if isopt else "ARG", env=sep.join(names),
                                                                      sbu=True, ptr=rng.random() < 0.5, **{"def": list(default)})
                             if isopt:
                                 spec = "[-x...]"
